@@ -21,7 +21,7 @@ Judge(i) ==
   ELSE IF s.a.fsrc # SourceOf(s.frame) \/ s.a.fdst # DestinationOf(s.frame) THEN "RadioIdsAsEncoded(24 bit)"
   \* the burst itself: its source is the frame's, and so is its target unless the frame says 0 (then the burst may guess
   \* the target from a CSBK / data-header address in its payload)
-  ELSE IF s.a.src # SourceOf(s.frame) \/ (DestinationOf(s.frame) # 0 /\ s.a.dst # DestinationOf(s.frame)) THEN "BurstIdsAsEncoded(24 bit)"
+  ELSE IF s.a.src # SourceOf(s.frame) \/ s.a.dst # DestinationOf(s.frame) THEN "BurstIdsAsEncoded(24 bit)"        \* id 0 included
   ELSE IF s.a.cc # ColourOf(s.frame) THEN "ColourCodeAsEncoded(4 bit)"
   ELSE IF s.a.seq # SequenceOf(s.frame) \/ s.a.timeslot # TimeslotOf(s.frame) THEN "SequenceAndTimeslotAsEncoded"
   ELSE IF s.a.octets # BurstOctets(s.frame) THEN "PayloadBitsAsEncoded"
